@@ -146,11 +146,14 @@ def extract_checked(ctx, fname, singular, nparams, module=NK):
                               "the kernel applies part of its formula only when `%s`: for the other sign of that parameter the value is a different function (%s is analytic in its parameters; "
                               "a factor or term that depends on the parameter cannot be dropped on a half-line)" % ("`, `".join(t for _, t in signs), fname))
     if ifs:
-        v0, _ = extract(ctx, fname, singular, nparams, skip_if=("*",), module=module)
-        env = {p: Poly() for p in ifs}
+        # each special case on its own: with parameter p taken out (its `!= 0` block skipped / its `== 0` branch taken) the
+        # value must equal the general one AT p = 0, for arbitrary values of the other parameters
         vs = v if isinstance(v, list) else [v]
-        v0s = v0 if isinstance(v0, list) else [v0]
-        ok = all(a.subs(env).eq(b.subs(env)) for a, b in zip(vs, v0s))
+        for p_ in sorted(set(ifs)):
+            v0, _ = extract(ctx, fname, singular, nparams, skip_if=(p_,), module=module)
+            env = {p_: Poly()}
+            v0s = v0 if isinstance(v0, list) else [v0]
+            ok = ok and all(a.subs(env).eq(b.subs(env)) for a, b in zip(vs, v0s))
     return v, ifs, ok
 
 
